@@ -251,6 +251,7 @@ def judge (_id : String) (lines : Array String) : Verdict := Id.run do
   | ["panic"] =>
     -- the process died: the property is violated; no recorded deviation allows it
     let canCrash := pS.crashed || pP.crashed || pF.crashed
+    if devFailForward input then return .known "failed-udf-forwarder-not-joined" "the real code panicked (send on closed channel from the forwarding goroutine of a UDF node whose process died)"
     return .specfail "no-crash" s!"the real code panicked (the harness child process died); model can crash: {canCrash}"
   | ["stuck"] => return .specfail "stop-completes" "the harness child process got stuck"
   | [accT, stopres, censusT, outsT, lateT, nodeErrT] =>
